@@ -34,8 +34,13 @@ def gen(rng, tier):
             ph = [rng.randint(1, min(vocab, 3)) for _ in range(L)]
         slop = rng.choice([1, 2, 3, 5, 8, 12, 18 - L if 18 - L > 0 else 1, 25, 40])
         docs = []
+        if i % 4 == 1:
+            # document 0 holds every phrase term within its first 18 tokens (word (0,0) is a candidate)
+            d0 = list(ph) if rng.random() < 0.5 else rng.sample(ph, len(ph))
+            docs.append((d0 + [50] * rng.randint(0, 5))[:18])
         for _ in range(rng.randint(2, 7)):
-            kind = rng.choice(["exact", "window", "missing", "far", "reversed", "noise", "empty", "dense"])
+            kind = rng.choice(["exact", "window", "missing", "far", "reversed", "noise", "empty", "dense",
+                               "alias", "straddle", "sparse", "crowded"])
             ln = rng.choice([rng.randint(1, 25), rng.randint(20, 120), rng.randint(100, 400 if i % 7 == 0 else 150)])
             base = [rng.choice([50, 51, 52]) for _ in range(ln)]
             if kind == "empty":
@@ -65,9 +70,32 @@ def gen(rng, tier):
                     seq += [t] + [51] * rng.randint(slop + 5, slop + 25)
             elif kind == "reversed":
                 seq = list(reversed(ph))
+            elif kind in ("alias", "straddle", "sparse", "crowded"):
+                seq = list(ph)
             else:
                 seq = []
+            if kind == "straddle":
+                # the occurrence crosses an 18-token bucket boundary
+                at = max(0, 18 * rng.randint(1, 4) - rng.randint(1, L - 1))
+                base = base + [50] * max(0, at - len(base))
+            if kind == "crowded":
+                # many occurrences of the phrase's terms: the 512-slot span table overflows
+                ln = rng.randint(80, 400)
+                base = [rng.choice(ph + [50] * rng.choice([0, 1, 3])) for _ in range(ln)]
+                at = rng.randint(0, ln - 1)
+            if kind == "sparse":
+                base = [50] * rng.randint(20, 120)
+                at = rng.randint(0, len(base))
             d = base[:at] + seq + base[at:]
+            if kind in ("alias", "sparse"):
+                # single phrase terms at distances that collide in a position bitmask (32, 64) or sit in the
+                # neighbouring buckets of the occurrence
+                for _k in range(rng.randint(1, 4)):
+                    q = at + rng.randrange(L) + rng.choice([-64, -32, 32, 64, -31, 31, -33, 33, -18, 18, rng.randint(-40, 40)])
+                    if 0 <= q < len(d) and not (at <= q < at + L):
+                        d[q] = rng.choice(ph)
+                    elif q >= len(d) and q < 500:
+                        d = d + [50] * (q - len(d)) + [rng.choice(ph)]
             docs.append(d)
         cases.append({"docs": docs, "tokz": "ws", "opts": {}, "queries": [["slop", ph, slop]]})
     return cases
